@@ -115,6 +115,7 @@ def build(case, ck, fname):
 
 
 def check_case(ctx, case):
+    obs.reset_state()
     w = walk(case)
     if w["stage"] == "unspecified":
         ctx.classes["skipped-unspecified"] += 1
